@@ -19,7 +19,9 @@ META = {
             'instance(), an object re-created mid-run - are checked, freshness itself is QUuid\'s).  Attributes also reach the message through '
             'the handlers of a real Pipeline (FunctionAttrHandler -> updateAttributes with overrides, setAttribute(s), removeAttribute, nested / scoped pipelines): '
             'the model applies the same steps (apply_ops) and theorems show that the event carries the CURRENT value of every name.  The harness also runs '
-            'with non-UTF-8 locale codecs (ISO-8859-1, windows-1252, Shift_JIS): the event text must not depend on them.',
+            'with non-UTF-8 locale codecs (ISO-8859-1, windows-1252, Shift_JIS): the event text must not depend on them.  The fluent front end '
+            'SimplePipeline::formatToSentry(sdkName, sdkVersion) is translated too (which parameters it hands to the constructor, its default arguments) and proved to yield '
+            'exactly the directly constructed object; in the run the own formatter objects of a share of the cases are obtained through it.',
     'note': 'Trusted: Coq 8.16.1 kernel (vm_compute for the closed configuration check and the 146097-day civil-calendar sweep), no axioms; '
             'tools/s2c/sentry.py, extraction (ExtrOcamlBasic only), ocaml/drv_sentry.ml, harness/h_sentry.cpp (virtual clock by defining '
             'gettimeofday/clock_gettime), Python json/datetime (independent oracle).  Modelled, not verified: QJsonDocument/QJsonObject, '
@@ -52,6 +54,16 @@ TIMES = [0, 999, 1000, 1001, DAY - 1, DAY, 951782400000, 951782400000 + DAY - 1,
 # the event text is produced from UTF-8 bytes and must not depend on the local 8-bit codec either
 TZS = ['XYZ-05:30|ar_EG.UTF-8|ISO-8859-1', 'PQR8|fa_IR.UTF-8|Shift_JIS', 'UTC0|C|', 'ABC-03|C|windows-1252']
 SELS = {0: 'own object A', 1: 'own object B', 2: 'SentryFormatter::instance()', 3: 'object A destroyed and re-created, then A'}
+# how the own objects of a case were obtained (round 8): 0 = SentryFormatterPtr::create(args), 1 = through the fluent front end
+# SimplePipeline().formatToSentry(args) (the front end must be transparent: same expected events)
+VIAS = [0, 0, 0, 1, 0, 1, 0]
+VIA_TEXT = {0: 'constructed directly: SentryFormatterPtr::create(<sdk arguments>)',
+            1: 'obtained through the fluent front end: SimplePipeline().formatToSentry(<the same sdk arguments>).handler(<capture>) - '
+               'as a pipeline step that SimplePipeline is the handler; without steps a copy of the message is processed by it'}
+
+
+def obj_text(rec):
+    return SELS[rec['sel']] + (' [the own objects of this case are obtained through SimplePipeline().formatToSentry(...)]' if rec.get('via') and rec['sel'] != 2 else '')
 LONG = [8191, 8192, 8193, 20000]
 
 
@@ -155,6 +167,7 @@ def gen_case(rng, hist, stream):
     else:
         steps = []
     case['steps'] = steps
+    case['via'] = rng.choice(VIAS)
     if mal and J.well_formed(case['msg']) and all(J.value_wf(v) for _, v in attrs):
         case['msg'] = case['msg'] + [0xDC00]
     return case
@@ -192,7 +205,7 @@ def records(c):
     """Python's own account of the message at each format() call of the pipeline: formatter object, attribute settings in order
     (a later one overrides), the formatted-message field, and the flat attribute steps handed to the model (apply_ops)"""
     if not c.get('steps'):
-        return [{'sel': 0, 'attrs': [(k, v) for k, v in c['attrs']], 'fmt': c['fmt'], 'ops': [], 'direct': True}]
+        return [{'sel': 0, 'attrs': [(k, v) for k, v in c['attrs']], 'fmt': c['fmt'], 'ops': [], 'direct': True, 'via': c.get('via', 0)}]
     recs, flat = [], []
     st = {'attrs': [(k, v) for k, v in c['attrs']], 'fmt': c['fmt']}
 
@@ -212,7 +225,7 @@ def records(c):
                 st['attrs'] = [(k, v) for k, v in st['attrs'] if list(k) != list(s[1])]
                 flat.append(s)
             elif t == 'F':
-                recs.append({'sel': s[1], 'attrs': list(st['attrs']), 'fmt': st['fmt'], 'ops': list(flat), 'direct': False})
+                recs.append({'sel': s[1], 'attrs': list(st['attrs']), 'fmt': st['fmt'], 'ops': list(flat), 'direct': False, 'via': c.get('via', 0)})
                 st['fmt'] = ('rec', len(recs) - 1)   # Formatter::process stores the event as the formatted message
             elif t == 'P':
                 saved = (list(st['attrs']), st['fmt'])
@@ -229,7 +242,7 @@ def opt(us):
 
 
 def line_of(c):
-    toks = [str(c['ms']), str(c['type']), J.hx(c['msg']), opt(c['fmt']), opt(c['cat']), opt(c['file']), opt(c['fn']),
+    toks = (['v1'] if c.get('via') else []) + [str(c['ms']), str(c['type']), J.hx(c['msg']), opt(c['fmt']), opt(c['cat']), opt(c['file']), opt(c['fn']),
             str(c['line']), str(len(c['attrs']))]
     for k, v in c['attrs']:
         toks += [J.hx(k)] + J.value_tokens(v)
@@ -355,7 +368,7 @@ def run_impl(impl, cases, tz, sdk=None):
     """one harness process for the whole list (same SentryFormatter objects throughout); per case the records it printed;
     sdk = (name units, version units): the constructor arguments of the own objects A and B (None = default arguments)"""
     lines = [line_of(c) for c in cases]
-    rc, out_i, err = vlib.run_lines(impl, lines, [codec_of(tz)] + ([J.hx(sdk[0]), J.hx(sdk[1])] if sdk else []), env=env_of(tz))
+    rc, out_i, err = vlib.run_lines(impl, lines, [codec_of(tz)] + ([J.hx(sdk[0]), '~' if sdk[1] is None else J.hx(sdk[1])] if sdk else []), env=env_of(tz))
     if rc != 0 or len(out_i) != len(lines):
         return None, 'implementation crashed or stopped: rc=%s stderr=%s' % (rc, err[-400:])
     res = []
@@ -416,9 +429,19 @@ def judge(c, r, obs):
         return None  # virtual clock not effective: reported as broken correspondence by the caller
     finding = None   # the open known finding (F16) never hides another violation of the same case
     for n, rec in enumerate(r['recs']):
-        where = '' if rec.get('direct') else ' [record %d of %d of the pipeline, formatted by %s, %d attribute settings before it]' % (
-            n + 1, len(r['recs']), SELS[rec['sel']], len(rec['attrs']))
+        where = ((' [formatted by passing a copy of the message through SimplePipeline().formatToSentry().handler(<capture>)]' if rec.get('via') else '')
+                 if rec.get('direct') else ' [record %d of %d of the pipeline, formatted by %s, %d attribute settings before it]' % (
+            n + 1, len(r['recs']), obj_text(rec), len(rec['attrs'])))
         po = python_oracle(dict(c, attrs=rec['attrs']), J.unhx(rec['impl']), obs)
+        if not po and rec.get('via') and rec['sel'] != 2 and rec['impl'] != rec.get('model', rec['impl']):
+            # the front end must be transparent: formatToSentry() is SentryFormatter(), whose sdk object is the model's
+            try:
+                ev, mev = J.loads_strict(J.pystr(J.unhx(rec['impl']))), J.loads_strict(J.pystr(J.unhx(rec['model'])))
+                if not J.same(ev.get('sdk'), mev.get('sdk')):
+                    po = ('sdk', 'sdk is %s, expected %s: the object obtained through formatToSentry() with the default arguments is not SentryFormatter()'
+                          % (_r(ev.get('sdk'), 300), _r(mev.get('sdk'), 300)))
+            except ValueError:
+                pass
         if po:
             if po[0] == 'routed_nonscalar_value':
                 if rec['verdict'] == '1':
@@ -433,8 +456,11 @@ def judge(c, r, obs):
 
 
 # constructor arguments (sdkName, sdkVersion) of the own formatter objects: legal strings that need JSON escaping or are not ASCII
+# (round 8) blanks at the edges and a long name (a front end that trims or clips an argument), a name without a version (one-argument
+# call: version None = omitted)
 SDKS = [('qtlogger', '2.1 "nightly"'), ('C:\\tools\\logger', '3'), ('my\tsdk \u00e9\u65e5', '1.0\n'), ('', ''), ('100%1 %2 %L1', '%1'),
-        ('\U0001F600/\u2028', '\x01\x7f</script>'), ('sentry.native.qt', '10.4.0-beta+build.7')]
+        ('\U0001F600/\u2028', '\x01\x7f</script>'), ('sentry.native.qt', '10.4.0-beta+build.7'),
+        ('  org.example.product.logging.sentry-bridge-for-qt.nightly  ', ' 2.0 '), ('only.the.name', None)]
 
 
 def judge_sdk(c, r, sdk):
@@ -442,8 +468,9 @@ def judge_sdk(c, r, sdk):
     arguments of the object that formatted it (instance(): the defaults = what the model says), and - the sdk object aside - the
     parsed event is the parsed model event.  ('correspondence', ...) = model and implementation differ, anything else falsifies C18"""
     for n, rec in enumerate(r['recs']):
-        where = ' [record %d of %d, formatted by %s constructed with sdkName=%r sdkVersion=%r]' % (
-            n + 1, len(r['recs']), SELS[rec['sel']], *(('<default>', '<default>') if rec['sel'] == 2 else (J.pystr(sdk[0]), J.pystr(sdk[1]))))
+        where = ' [record %d of %d, formatted by %s %s sdkName=%r sdkVersion=%r]' % (
+            n + 1, len(r['recs']), SELS[rec['sel']], 'obtained through SimplePipeline().formatToSentry with' if rec.get('via') and rec['sel'] != 2 else 'constructed with',
+            *(('<default>', '<default>') if rec['sel'] == 2 else (J.pystr(sdk[0]), '<omitted: default>' if sdk[1] is None else J.pystr(sdk[1]))))
         po = python_oracle(dict(c, attrs=rec['attrs']), J.unhx(rec['impl']), {})
         if po and po[0] != 'routed_nonscalar_value':
             return po[0], po[1] + where
@@ -452,7 +479,7 @@ def judge_sdk(c, r, sdk):
             mev = J.loads_strict(J.pystr(J.unhx(rec['model'])))
         except ValueError:
             return 'correspondence', 'the model event does not parse' + where
-        want = mev.get('sdk') if rec['sel'] == 2 else {'name': J.pystr(sdk[0]), 'version': J.pystr(sdk[1])}
+        want = mev.get('sdk') if rec['sel'] == 2 else {'name': J.pystr(sdk[0]), 'version': (mev.get('sdk') or {}).get('version') if sdk[1] is None else J.pystr(sdk[1])}
         if not J.same(ev.get('sdk'), want):
             return 'sdk', 'sdk is %s, expected %s' % (_r(ev.get('sdk'), 300), _r(want, 300)) + where
         ev2 = dict(ev); ev2['sdk'] = mev.get('sdk')
@@ -488,6 +515,10 @@ def shrink_steps(steps, ok):
 def shrink_case(c, still_fails):
     cur = dict(c)
     cur.setdefault('steps', [])
+    if cur.get('via'):
+        t = dict(cur); t['via'] = 0   # the front end is part of the trigger only if the directly constructed objects pass
+        if still_fails(t):
+            cur = t
     t = dict(cur); t['msg'] = [0x61] * len(cur['msg'])
     if still_fails(t):
         cur = t
@@ -534,7 +565,7 @@ def steps_text(steps, ind=''):
         elif st[0] == 'R':
             out.append(ind + 'handler calling removeAttribute(%r)' % J.pystr(st[1]))
         elif st[0] == 'F':
-            out.append(ind + 'SentryFormatter: %s  -> one record' % SELS[st[1]])
+            out.append(ind + 'SentryFormatter: %s  -> one record' % SELS[st[1]])   # how the own objects were obtained: own_formatter_objects_obtained_by
         elif st[0] == 'P':
             out.append(ind + 'nested Pipeline(scoped=%s):' % bool(st[1]))
             out += steps_text(st[2], ind + '    ')
@@ -548,7 +579,10 @@ def describe(c, r, tz):
             'category': None if c['cat'] is None else J.pystr(c['cat']), 'file': None if c['file'] is None else J.pystr(c['file']),
             'function': None if c['fn'] is None else J.pystr(c['fn']), 'line': c['line'],
             'attributes': [[repr(J.pystr(k)), ' '.join(J.value_tokens(v))] for k, v in c['attrs']],
-            'pipeline_that_processes_the_message': steps_text(c.get('steps') or []) or ['none: A.format(message) is called directly'],
+            'pipeline_that_processes_the_message': steps_text(c.get('steps') or []) or [
+                'none: a copy of the message is processed by the SimplePipeline that holds A, the captured formattedMessage() is the record' if c.get('via')
+                else 'none: A.format(message) is called directly'],
+            'own_formatter_objects_obtained_by': VIA_TEXT[1 if c.get('via') else 0],
             'input_line': line_of(c), 'TZ': tz, 'environment': env_of(tz), 'locale_codec_of_the_process': codec_of(tz) if codec_of(tz) != '-' else 'default (UTF-8)',
             'implementation_output': _r(J.pystr(J.unhx(r['impl'])), 3000) if r else None,
             'model_output': _r(J.pystr(J.unhx(r['model'])), 3000) if r and 'model' in r else None,
@@ -570,9 +604,9 @@ def first_repeat(ids):
     return None
 
 
-def plain_event(sel, text):
+def plain_event(sel, text, via=0):
     return {'ms': 0, 'type': 0, 'msg': J.units(text), 'fmt': None, 'cat': J.units('c'), 'file': J.units('f'), 'fn': J.units('g'), 'line': 1,
-            'attrs': [], 'stream': 'wf', 'steps': [['F', sel]] if sel is not None else []}
+            'attrs': [], 'stream': 'wf', 'steps': [['F', sel]] if sel is not None else [], 'via': via}
 
 
 def id_repeat_witness(impl, cases, res, idxs, tz_of):
@@ -581,24 +615,25 @@ def id_repeat_witness(impl, cases, res, idxs, tz_of):
     a, b, dup = first_repeat(all_ids(res))
     (ia, na), (ib, nb) = where[a], where[b]
     sa, sb = res[ia]['recs'][na]['sel'], res[ib]['recs'][nb]['sel']
+    va, vb = cases[ia].get('via', 0), cases[ib].get('via', 0)
     base = {'kind': 'event-id-repeat', 'event_id': dup, 'events': len(where),
-            'first_holder': {'case_index': ia, 'record': na, 'formatter': SELS[sa], 'sub_run': tz_of[ia]},
-            'second_holder': {'case_index': ib, 'record': nb, 'formatter': SELS[sb], 'sub_run': tz_of[ib]}}
+            'first_holder': {'case_index': ia, 'record': na, 'formatter': obj_text(res[ia]['recs'][na]), 'sub_run': tz_of[ia]},
+            'second_holder': {'case_index': ib, 'record': nb, 'formatter': obj_text(res[ib]['recs'][nb]), 'sub_run': tz_of[ib]}}
 
     def repeats(seq, tz):
         rr, _ = run_impl(impl, seq, tz)
         return rr is not None and first_repeat(all_ids(rr)) is not None
     if tz_of[ia] != tz_of[ib]:
         # two processes: the same event formatted first thing in each
-        ra, _ = run_impl(impl, [plain_event(sa, 'a')], tz_of[ia])
-        rb, _ = run_impl(impl, [plain_event(sb, 'a')], tz_of[ib])
+        ra, _ = run_impl(impl, [plain_event(sa, 'a', va)], tz_of[ia])
+        rb, _ = run_impl(impl, [plain_event(sb, 'a', vb)], tz_of[ib])
         if ra and rb and set(all_ids(ra)) & set(all_ids(rb)):
-            base.update({'two_processes': True, 'sequence': [plain_event(sa, 'a')], 'TZ': tz_of[ia], 'second_sequence': [plain_event(sb, 'a')], 'second_TZ': tz_of[ib],
+            base.update({'two_processes': True, 'sequence': [plain_event(sa, 'a', va)], 'TZ': tz_of[ia], 'second_sequence': [plain_event(sb, 'a', vb)], 'second_TZ': tz_of[ib],
                          'ids_observed': [all_ids(ra), all_ids(rb)]})
         return base
     tz = tz_of[ia]
     seq = None
-    for cand in ([plain_event(sa, 'a'), plain_event(sb, 'b')], [cases[ia], cases[ib]]):
+    for cand in ([plain_event(sa, 'a', va), plain_event(sb, 'b', vb)], [cases[ia], cases[ib]]):
         if repeats(cand, tz):
             seq = cand
             break
@@ -611,7 +646,7 @@ def id_repeat_witness(impl, cases, res, idxs, tz_of):
     if seq is not None:
         rr, _ = run_impl(impl, seq, tz)
         base.update({'sequence': seq, 'TZ': tz, 'input_lines': [line_of(x) for x in seq],
-                     'events_of_the_sequence': [{'formatter': SELS[rec['sel']], 'event_id': rec['event_id']} for r in (rr or []) for rec in r['recs']]})
+                     'events_of_the_sequence': [{'formatter': obj_text(rec), 'event_id': rec['event_id']} for r in (rr or []) for rec in r['recs']]})
     return base
 
 
@@ -619,7 +654,7 @@ def run():
     chk = vlib.Check('C18')
     chk.trusted = ['Coq 8.16.1 kernel; vm_compute on the closed terms sentry_cfg_goodb src_sentry_cfg and the 146097-day calendar sweep; no native_compute',
                    'axioms: none (every Print Assumptions: Closed under the global context)',
-                   'tools/s2c/sentry.py translator (sentryformatter.cpp/.h -> SrcSentry.v)',
+                   'tools/s2c/sentry.py translator (sentryformatter.cpp/.h, body of SimplePipeline::formatToSentry in simplepipeline.cpp and its declaration defaults -> SrcSentry.v)',
                    'extraction ExtrOcamlBasic only; ocaml/drv_sentry.ml; harness/h_sentry.cpp (virtual wall clock; builds a real Pipeline of FunctionAttrHandler / FunctionHandler / SentryFormatter handlers from the steps of a case)',
                    'Python json / datetime as independent oracle on the implementation output; Python\'s own replay of the attribute steps (records()) next to the model\'s apply_ops',
                    'modelled, not verified: QJsonDocument/QJsonObject, QVariant::toString, QDateTime UTC rendering, QVariantHash (insert / assign / remove = apply_op); QUuid::createUuid is outside (format + distinctness over all formatter objects observed)']
@@ -631,7 +666,9 @@ def run():
                        'a double / float under a routed name is rendered in shortest-g form (number text): not generated beyond small values, observation only',
                        'a fingerprint cut through a surrogate pair is an observation, not a violation (the cut is in UTF-16 units)',
                        'thread id and Qt version string are read from the run and given to the model; the event id is taken from the output',
-                       'attributes reach the message by setAttribute before the pipeline and through pipeline handlers (attribute handlers = updateAttributes, setAttribute(s), removeAttribute, nested and scoped pipelines); four SentryFormatter objects serve each sub-run (two own ones, instance(), one re-created at generated points); ids must be pairwise distinct over all of them and over all sub-runs']
+                       'attributes reach the message by setAttribute before the pipeline and through pipeline handlers (attribute handlers = updateAttributes, setAttribute(s), removeAttribute, nested and scoped pipelines); four SentryFormatter objects serve each sub-run (two own ones, instance(), one re-created at generated points); ids must be pairwise distinct over all of them and over all sub-runs',
+                       'the own objects of about 2 in 7 cases are obtained through SimplePipeline().formatToSentry(<same arguments>) instead of being constructed (via); the front end is expected to be transparent '
+                       '(C18_front_end_is_the_direct_object); each process first obtains one more object through formatToSentry with OTHER arguments; sdk arguments: two-argument, one-argument and no-argument calls']
     chk.proof(vlib.proof_leg('Properties_C18', ['json', 'sentry']))
     model = vlib.build_model('sentry')
     impl = vlib.build_harness('sentry')
@@ -644,6 +681,7 @@ def run():
         try:
             c = json.load(open(os.path.join(cdir, p)))
             c.setdefault('steps', [])
+            c.setdefault('via', 0)
             cases.append(c)
         except Exception:
             pass
@@ -660,7 +698,7 @@ def run():
                       'steps': [['U', [kv('user', 'd\u00e9faut'), kv('request_id', 'none'), kv('appname', 'app1'), kv('host_name', 'h\u00f4te1')]],
                                 ['U', [kv('user', 'Zo\u00eb'), kv('appname', '\u30a2\u30d7\u30ea')]], ['F', sa],
                                 ['P', scoped, [['U', [kv('request_id', 'r-\u00e9-2'), kv('host_name', 'h\u00f4te2'), kv('os_name', 'Linux')]], ['F', sb]]],
-                                ['F', sa]]})
+                                ['F', sa]], 'via': len(cases) % 2})
             cases.append(c)
     nfixed = len(cases) - ncorpus
     # very long messages (nothing may clip message.formatted): every length in thorough, all four once in quick
@@ -778,14 +816,15 @@ def run():
     # sdk-argument leg: own formatter objects constructed with (sdkName, sdkVersion) that need escaping; the model carries the
     # default strings (SrcSentry.src_sentry_cfg), so here the sdk object is judged on the implementation side (= the arguments) and the
     # rest of the event against the model
-    sdk_leg = {'argument_pairs': [list(x) for x in SDKS], 'records': 0, 'falsified': 0, 'model_differs': 0}
+    sdk_leg = {'argument_pairs': [list(x) for x in SDKS], 'records': 0, 'records_by_objects_obtained_through_formatToSentry': 0, 'falsified': 0, 'model_differs': 0}
     wf_idx = [i for i, c in enumerate(cases) if c['stream'] == 'wf' and len(c['msg']) < 300]
     sample = [cases[i] for i in wf_idx[:ncorpus + nfixed] + wf_idx[ncorpus + nfixed + len(LONG):][:(400 if thorough else 60)]]
-    trivial = dict(gen_case(random.Random(0), {}, 'wf'), msg=[], attrs=[], fmt=None, ms=0, type=0, line=1, steps=[], cat=J.units('c'), file=J.units('f'), fn=J.units('g'))
+    trivial = dict(gen_case(random.Random(0), {}, 'wf'), msg=[], attrs=[], fmt=None, ms=0, type=0, line=1, steps=[], cat=J.units('c'), file=J.units('f'), fn=J.units('g'), via=0)
+    trivial_fluent = dict(trivial, via=1)
     sdk_reported = set()
     for k, (sn, sv) in enumerate(SDKS):
-        sdk = (J.units(sn), J.units(sv)); tz = TZS[k % len(TZS)]
-        scs = [trivial] + sample
+        sdk = (J.units(sn), None if sv is None else J.units(sv)); tz = TZS[k % len(TZS)]
+        scs = [trivial, trivial_fluent] + sample
         rr, err = run_cases(impl, model, scs, tz, sdk)
         if rr is None:
             chk.broke('sdk-argument run failed: ' + err, {'kind': 'infrastructure', 'error': err, 'sdkName': sn, 'sdkVersion': sv})
@@ -797,6 +836,7 @@ def run():
             return j[0] if j else None
         for c, r in zip(scs, rr):
             sdk_leg['records'] += len(r['recs'])
+            sdk_leg['records_by_objects_obtained_through_formatToSentry'] += sum(1 for rec in r['recs'] if rec.get('via') and rec['sel'] != 2)
             j = judge_sdk(c, r, sdk)
             if not j:
                 continue
@@ -804,12 +844,13 @@ def run():
             if j[0] in sdk_reported:
                 continue
             sdk_reported.add(j[0])
-            small = trivial if sdk_kind(trivial) == j[0] else shrink_case(c, lambda t: sdk_kind(t) == j[0])
+            small = trivial if sdk_kind(trivial) == j[0] else trivial_fluent if sdk_kind(trivial_fluent) == j[0] else shrink_case(c, lambda t: sdk_kind(t) == j[0])
             x, _ = run_cases(impl, model, [small], tz, sdk)
             j2 = judge_sdk(small, x[0], sdk) if x else None
             d = describe(small, x[0] if x else None, tz)
+            call = '(%s)' % json.dumps(sn) if sv is None else '(%s, %s)' % (json.dumps(sn), json.dumps(sv))
             d.update({'kind': j[0], 'detail': (j2 or j)[1], 'sdkName': sn, 'sdkVersion': sv, 'sdk_units': [sdk[0], sdk[1]],
-                      'constructor': 'SentryFormatter(%s, %s)' % (json.dumps(sn), json.dumps(sv))})
+                      'constructor': ('SimplePipeline().formatToSentry' if small.get('via') else 'SentryFormatter') + call})
             if j[0] == 'correspondence':
                 chk.broke('correspondence (sdk-argument leg): ' + d['detail'], d)
             else:
@@ -845,7 +886,11 @@ def run():
         'records_where_a_name_was_overridden_with_another_value': {'routed_name': sum(1 for rec in allrecs if overrides(rec, True)),
                                                                     'name_that_goes_to_extra': sum(1 for rec in allrecs if overrides(rec, False))},
         'records_by_formatter_object': {SELS[k]: sum(1 for rec in allrecs if rec['sel'] == k and not rec.get('direct')) for k in SELS},
-        'records_by_direct_format_call_on_A': sum(1 for rec in allrecs if rec.get('direct')),
+        'records_by_direct_format_call_on_A': sum(1 for rec in allrecs if rec.get('direct') and not rec.get('via')),
+        'records_by_a_copy_of_the_message_through_the_SimplePipeline_holding_A': sum(1 for rec in allrecs if rec.get('direct') and rec.get('via')),
+        'own_formatter_objects_obtained_via': {'direct_construction': sum(1 for c in cases if not c.get('via')),
+                                               'SimplePipeline::formatToSentry': sum(1 for c in cases if c.get('via'))},
+        'records_by_objects_obtained_through_formatToSentry': {SELS[k]: sum(1 for rec in allrecs if rec['sel'] == k and rec.get('via')) for k in (0, 1, 3)},
         'records_with_non_ascii_text_by_locale_codec': {codec_of(tz): sum(1 for i in idxs[tz] if any(u > 127 for u in cases[i]['msg'])) for tz in TZS},
         'oracle_evaluated_on_impl_outputs': sum(len(r['recs']) for c, r in zip(cases, res) if c['stream'] != 'malformed'), 'oracle_falsified': len(bad),
         'oracle_falsified_by_kind': {k: sum(1 for b in bad if b[1][0] == k) for k in sorted({b[1][0] for b in bad})},
@@ -895,15 +940,16 @@ def replay(path):
         print(json.dumps(r, indent=1)); return 0
     tz = r.get('TZ', 'UTC0|C')
     seq = ([r['earlier_event_on_the_same_formatter']['case']] if r.get('earlier_event_on_the_same_formatter') else []) + [c]
-    sdk = (r['sdk_units'][0], r['sdk_units'][1]) if r.get('sdk_units') else None
+    sdk = (r['sdk_units'][0], r['sdk_units'][1]) if r.get('sdk_units') else None   # second component None = one-argument call
     res, err = run_cases(impl, model, seq, tz, sdk)
     if res is None:
         print(err); return 1
     print('environment    ', env_of(tz), 'locale codec', codec_of(tz))
     if sdk:
-        print('own formatter objects constructed as', r.get('constructor'))
+        print('own formatter objects obtained as', r.get('constructor'))
     for t, x in zip(seq, res):
         print('input          ', line_of(t)[:400])
+        print('own formatter objects:', VIA_TEXT[1 if t.get('via') else 0])
         for line in steps_text(t.get('steps') or []):
             print('   pipeline:   ', line)
         for n, rec in enumerate(x['recs']):
